@@ -7,14 +7,30 @@ class Plugin:
     def __init__(self, mon):
         self.mon = mon
         self.tests = 0
+        self.mocked_tests = 0
         self.outcomes = {}
 
     def pytest_runtest_setup(self, item):
         self.mon.case = {"cls": "pytest", "index": item.nodeid}
         self.mon.case_desc = item.nodeid
         self.mon.reset_guard()
+        # tests that replace library internals or collaborators by mocks do not execute the real code the
+        # oracles reason about: the monitors sleep through them (counted)
+        mocked = "mock" in item.nodeid.lower()
+        if not mocked:
+            try:
+                import inspect
+
+                src = inspect.getsource(item.function)
+                mocked = "mock" in src.lower() or "monkeypatch" in src
+            except Exception:
+                mocked = False
+        self.mon.active = not mocked
+        if mocked:
+            self.mocked_tests += 1
 
     def pytest_runtest_teardown(self, item):
+        self.mon.active = True
         self.mon.case = None
         self.mon.case_desc = None
 
